@@ -14,6 +14,7 @@ import (
 	"fmt"
 	"io"
 	"strings"
+	"time"
 
 	"github.com/0xReLogic/Helios/internal/config"
 	"github.com/0xReLogic/Helios/internal/logging"
@@ -225,6 +226,24 @@ func runSysPlug(x *X) {
 			}
 		}
 		all = append(all, ex)
+		// fault: a client that goes away before the response. Its own exchange has no oracle;
+		// what it must not do is damage the exchanges after it (buffers, pooled writers, limits).
+		if wantGzip && i+1 < nEx && c.Intn(6, "client-gone") == 0 {
+			gx := env.newExchange(cl)
+			gm := &meta{ae: "gzip"}
+			metas[gx.id] = gm
+			gx.method, gx.target = "GET", fmt.Sprintf("/gone/%d", i)
+			gx.hdr = append(gx.hdr, hdrKV{"Accept-Encoding", "gzip"})
+			gx.noRead = true
+			gn := 6000 + c.Intn(24000, "gone-size")
+			gm.plain = sizedBody(x, gn, c.Intn(2, "gone-compressible") == 1, "gone")
+			grs := &respScript{status: 200, body: gm.plain, framing: []string{"cl", "chunked"}[c.Intn(2, "gone-framing")]}
+			grs.hdr = append(grs.hdr, hdrKV{"Content-Type", "application/json"})
+			grs.steps = []respStep{{kind: "write", n: 1 + c.Intn(gn/2, "gone-first")}, {kind: "sleep", d: time.Duration(50+c.Intn(400, "gone-ms")) * time.Millisecond}}
+			gx.resp = grs
+			all = append(all, gx)
+			x.Fault("client-gone-before-response")
+		}
 	}
 	x.Sample["config"] = fmt.Sprintf("chain=%v max_request_body=%d max_response_body=%d gzip(level=%d min_size=%d types=%v)", names, L1, L2, level, minSize, ctypes)
 	var desc []string
@@ -256,6 +275,9 @@ func runSysPlug(x *X) {
 		m := metas[ex.id]
 		rs := ex.resp
 		got := ex.got
+		if ex.noRead {
+			continue
+		}
 		if !ex.done {
 			x.Violate(propOf(x, wantSize), propOf(x, wantSize)+"/exchange-did-not-complete", "exchange %d (%s -> %d, %d bytes) did not complete", ex.id, ex.method, rs.status, len(rs.body))
 			continue
